@@ -152,6 +152,10 @@ func runOps(prop, tier, replay string) {
 		srRun(run, prop)
 		run.Finish()
 	}
+	if os.Getenv("VERIF_ONLY") == "lits" { // development aid: only the literal engine
+		litRun(run, tier, prop)
+		run.Finish()
+	}
 	n := 0
 	states, transitions, points := opsRun(run, tier, func(p opsPoint, s, g opsOutcome) {
 		run.Eval(p.Family + ":" + p.text())
